@@ -70,6 +70,8 @@ def compare(case, r, m):
             raise Violation('origin-differs', case, 'slot %d engine=(%g,%g) model=(%g,%g)' % (i, ox, oy, s.ox, s.oy))
     if float_of(d['adv'][0]) != m['advance']:
         raise Violation('segment-advance-differs', case, 'engine=%g model=%g' % (float_of(d['adv'][0]), m['advance']))
+    if float_of(d['adv'][1]) != m['advance_y']:
+        raise Violation('segment-advance-y-differs', case, 'engine=%g model=%g' % (float_of(d['adv'][1]), m['advance_y']))
     return assoc_checked
 
 
